@@ -21,6 +21,12 @@ layouts      : the expected rendering depends on the numbers of the datasets onl
                views, strided slices of a larger buffer, integer dtype, all datasets alike or each its own (case['lay']),
                and judged by the same clauses; random 2-d table-operation cases get Fortran / transposed / strided
                columns and masks.
+summaries    : the expected rendering of a statistics summary depends on the counts only, not on what the counted things
+               are called or where they come from: every enumerated / random summary is also presented (in rotation) with
+               names repeated within / across the status classes (the same task listed twice, one name for everything),
+               equally named tests that are different tests, all results in one task's list, two selected labels, tests
+               carrying only part of the selected labels; a summary by labels may have no row at all (TLC enumerates it).
+               Keys say which: /repeated-names, /same-name-other-test, /one-task, /zero-rows, /two-labels, /partial-labels.
 """
 import io
 import json
@@ -139,6 +145,51 @@ def build_dataset_result(case):
     return TestHolmBonferroni(name='tholm', test=stud, alpha=0.01).evaluate()
 
 
+NAME_SCHEMES = ('pairs', 'one', 'pool2', 'across')
+
+
+def _scheme_name(case, cls, i, g):
+    """Name of item i of class `cls` (item g of the whole summary).  case['names']: absent = every item its own name;
+    'pairs' = the items of a class go by two (the same task / test listed twice: repetition within the class);
+    'one' = one name for everything; 'pool2' = two names in turn over the whole summary (repetition within and across
+    the classes); 'across' = item i of every class has the same name (repetition across the classes only)."""
+    scheme = case.get('names')
+    if not scheme:
+        return '%s%d' % (cls, i)
+    if scheme == 'pairs':
+        return '%s%d' % (cls, i // 2)
+    if scheme == 'one':
+        return 'item'
+    if scheme == 'pool2':
+        return 'item%d' % (g % 2)
+    if scheme == 'across':
+        return 'item%d' % i
+    raise ValueError('unknown name scheme %r' % (scheme,))
+
+
+def _item_names(case, statuses):
+    """[(status, name)] of the items of a task / test summary: fail[0][s] items of status s, named by case['names']."""
+    out = []
+    for st, cnt in zip(statuses, case['fail'][0]):
+        out += [(st, _scheme_name(case, 'task' + st.lower(), i, len(out) + i)) for i in range(cnt)]
+    return out
+
+
+def _labels_by(case):
+    """Number of selected labels of a summary by labels (a table without rows needs two: with one selected label every
+    test that carries it makes a row)."""
+    return 2 if not case['fail'] else case.get('by', 1)
+
+
+def _labels_part(case):
+    """[[#ok, #ko] carrying only the first selected label (no label if one is selected), [#ok, #ko] carrying only the
+    last].  A summary without rows needs one of each, else the evaluation itself refuses the selection."""
+    part = [list(p) for p in case.get('part', [[0, 0], [0, 0]])]
+    if not case['fail']:
+        part = [p if any(p) else [1, 0] for p in part]
+    return part
+
+
 def build_result(case):
     """The real test result described by `case`."""
     from valjean.cosette.task import TaskStatus
@@ -158,28 +209,42 @@ def build_result(case):
                 dmd['samp%d' % (s + 1)]['key%d' % k] = 'val%d' % k if not bad else 'oth%d%d' % (k, s + 1)
         return TestMetadata(dmd, name='tmeta').evaluate()
     if kind == 'stats_tasks':
-        tres = []
-        for st, cnt in zip(TASK_STATUSES, case['fail'][0]):
-            tres += [('task%s%d' % (st.lower(), i), {'status': TaskStatus[st]}) for i in range(cnt)]
+        names = _item_names(case, TASK_STATUSES)
+        tres = [(name, {'status': TaskStatus[st]}) for st, name in names]
         return TestStatsTasks(name='tstats', task_results=tres).evaluate()
     if kind in ('stats_tests', 'stats_labels'):
         from valjean.eponine.dataset import Dataset
-        def one(name, ok, labels=None):
-            a = Dataset(np.float64(1.0), np.float64(0.1), name='a')
-            b = Dataset(np.float64(1.0 if ok else 2.0), np.float64(0.1), name='b')
+        def one(name, ok, labels=None, var=0):
+            # var: other numbers, i.e. another test (another fingerprint) with the same name and the same verdict
+            a = Dataset(np.float64(1.0 + var), np.float64(0.1), name='a')
+            b = Dataset(np.float64((1.0 if ok else 2.0) + var), np.float64(0.1), name='b')
             return TestEqual(a, b, name=name, labels=labels).evaluate()
+        def tasks_of(items):
+            """items = [(task name, test result | None (the task has no 'result'))] -> task_results; case['group'] =
+            'one-task': all the test results are the result list of one task (the first name), else one task each."""
+            if case.get('group') == 'one-task' and any(r is not None for _, r in items):
+                first = next(n for n, r in items if r is not None)
+                return [(first, {'result': [r for _, r in items if r is not None]})] + [(n, {}) for n, r in items if r is None]
+            return [(n, {} if r is None else {'result': [r]}) for n, r in items]
+        differ = case.get('fp') == 'differ'
         if kind == 'stats_tests':
-            nok, nko, nmiss = case['fail'][0]
-            tres = [('tk_ok%d' % i, {'result': [one('ok%d' % i, True)]}) for i in range(nok)]
-            tres += [('tk_ko%d' % i, {'result': [one('ko%d' % i, False)]}) for i in range(nko)]
-            tres += [('tk_miss%d' % i, {}) for i in range(nmiss)]
-            return TestStatsTests(name='tstats', task_results=tres).evaluate()
-        tres = []
-        for r, (nok, nko) in enumerate(case['fail']):
-            lab = {'lab': 'row%d' % r}
-            tres += [('tk%d_ok%d' % (r, i), {'result': [one('r%dok%d' % (r, i), True, lab)]}) for i in range(nok)]
-            tres += [('tk%d_ko%d' % (r, i), {'result': [one('r%dko%d' % (r, i), False, lab)]}) for i in range(nko)]
-        return TestStatsTestsByLabels(name='tstats', task_results=tres, by_labels=('lab',)).evaluate()
+            items = [(name, None if st == 'MISSING' else one(name, st == 'SUCCESS', var=(k if differ else 0)))
+                     for k, (st, name) in enumerate(_item_names(case, TEST_OUTCOMES))]
+            return TestStatsTests(name='tstats', task_results=tasks_of(items)).evaluate()
+        # by labels: row r = the tests carrying all the selected labels with 'lab' = 'row<r>'; case['part'] = tests that
+        # carry only the first / only the last selected label (none of them if one label is selected) and are in no row
+        by = _labels_by(case)
+        sel = ('lab', 'sub')[:by]
+        groups = [('r%d' % r, cnts, dict(zip(sel, ('row%d' % r, 's%d' % (r % 2))))) for r, cnts in enumerate(case['fail'])]
+        part = _labels_part(case)
+        groups.append(('p0', part[0], dict({} if by == 1 else {'lab': 'row0'}, oth='x')))
+        groups.append(('p1', part[1], dict({} if by == 1 else {'sub': 's1'}, oth='y')))
+        items = []
+        for prefix, (nok, nko), lab in groups:
+            for ok, cnt in ((True, nok), (False, nko)):
+                items += [(_scheme_name(case, prefix + ('ok' if ok else 'ko'), i, len(items) + i), ok, lab) for i in range(cnt)]
+        tres = tasks_of([(name, one(name, ok, lab, var=(k if differ else 0))) for k, (name, ok, lab) in enumerate(items)])
+        return TestStatsTestsByLabels(name='tstats', task_results=tres, by_labels=sel).evaluate()
     if kind == 'failed':
         from valjean.eponine.dataset import Dataset
         a_test = TestEqual(Dataset(np.float64(1.0), np.float64(0.1), name='a'),
@@ -457,6 +522,8 @@ def rows_of_text(text):
     doc, errors, _ = parse_rst(text)
     tables = [p for p in doc_parts(doc) if p['type'] == 'table']
     rows = [[dict(s=s, hl=bool(h)) for s, h in row] for row in tables[0]['rows']] if len(tables) == 1 else []
+    if len(rows) == 1 and all(c['s'] == '' and not c['hl'] for c in rows[0]):
+        rows = []          # reStructuredText cannot write a body without rows: docutils reads a header-only table as one row of empty cells
     return dict(raised=False, invalid=bool(errors) or len(tables) != 1, rows=rows, why='; '.join(errors))
 
 
@@ -594,8 +661,69 @@ def render_key(case, clauses, obs):
     return key + _lay_suffix(case)
 
 
+VARIANT_FIELDS = ('lay', 'names', 'fp', 'group', 'by', 'part')     # dimensions a case is varied along (see *_variants)
+
+
+def _base_of(case):
+    return {k: v for k, v in case.items() if k not in VARIANT_FIELDS}
+
+
+def _is_variant(case):
+    return any(case.get(k) for k in VARIANT_FIELDS)
+
+
 def _lay_suffix(case):
-    return '/lay-' + case['lay'] if case.get('lay') else ''
+    """Suffix of a key naming the dimensions along which the case differs from the plain ones."""
+    dims = []
+    if case.get('lay'):
+        dims.append('lay-' + case['lay'])
+    if case.get('names'):
+        dims.append('repeated-names')
+    if case.get('fp'):
+        dims.append('same-name-other-test')
+    if case.get('group'):
+        dims.append(case['group'])
+    if case.get('kind') == 'stats_labels':
+        if not case['fail']:
+            dims.append('zero-rows')
+        elif case.get('by', 1) > 1:
+            dims.append('two-labels')
+        if any(any(p) for p in case.get('part', ())):
+            dims.append('partial-labels')
+    return ''.join('/' + d for d in dims)
+
+
+def stats_variants(cases, start=0):
+    """The statistics summaries along the dimensions the counts do not show, in rotation over the cases (the expected
+    rendering depends on the counts only: the variants are judged like their base case):
+    tasks / tests: how the items are named (NAME_SCHEMES: the same name twice within a class, across classes, one name
+    for everything); tests: equally named tests that are different tests (other fingerprint), all the results in the
+    result list of one task; by labels: two selected labels, tests that carry only some of the selected labels (passing
+    and failing ones), every task listed twice."""
+    out, rot = [], defaultdict(lambda: start)          # one rotation per (kind, pattern): each sees every option
+    for c in cases:
+        if _is_variant(c):
+            continue
+        opts = []
+        if c['kind'] in ('stats_tasks', 'stats_tests'):
+            counts = c['fail'][0]
+            if sum(counts) >= 2:
+                opts += [dict(names='one'), dict(names='pool2')]
+                if max(counts) >= 2:
+                    opts.append(dict(names='pairs'))
+                if sum(1 for x in counts if x) >= 2:
+                    opts.append(dict(names='across'))
+                if c['kind'] == 'stats_tests' and sum(counts[:2]) >= 2:
+                    opts += [dict(names='one', fp='differ'), dict(group='one-task'), dict(names='pairs', group='one-task')]
+        elif c['kind'] == 'stats_labels':
+            opts = [dict(part=[[1, 0], [0, 1]]), dict(part=[[0, 2], [0, 0]]), dict(names='pairs', group='one-task')]
+            if c['fail']:
+                opts += [dict(by=2), dict(by=2, part=[[0, 1], [1, 0]]), dict(by=2, part=[[0, 0], [0, 1]], names='pairs')]
+        if opts:
+            pat = (c['kind'], json.dumps(c['fail']))
+            out.append(dict(c, **opts[rot[pat] % len(opts)]))
+            rot[pat] += 1
+    return out
 
 
 def layout_variants(cases, start=0):
@@ -630,7 +758,7 @@ def check_renderings(ctx, cases, wd, n_enum):
         records.append(trace_record(cid, case, obs, tokens))
         if _nontrivial(obs):
             ctx.distinct((case['kind'], tuple(case['shape']), tuple(map(tuple, case['fail'])), case['verb'], case['rep'],
-                          case.get('lay')))
+                          json.dumps([case.get(k) for k in VARIANT_FIELDS])))
         for k, (jt, tobs) in enumerate(tabs):
             sig = json.dumps([jt, tobs['raised'], tobs['invalid'], tobs['rows']], sort_keys=True)
             tables.setdefault(sig, (case, k, jt, tobs))
@@ -641,13 +769,13 @@ def check_renderings(ctx, cases, wd, n_enum):
     with ThreadPoolExecutor(max(1, min(4, len(chunks)))) as pool:
         judged = list(pool.map(lambda ch: judge(ch[1], wd, 'b%d' % ch[0]), chunks))
     base_bad = {_sig(cases[cid - 1]): clauses for _, (_, bad) in zip(chunks, judged) for cid, clauses in bad.items()
-                if not cases[cid - 1].get('lay')}
+                if not _is_variant(cases[cid - 1])}
     for (lo, _), (res, bad) in zip(chunks, judged):
         ctx.tlc(res, 'RenderTrace/cases[%d:%d]' % (lo, lo + step))
         for cid, clauses in sorted(bad.items()):
             case, (obs, _, _) = cases[cid - 1], results[cid - 1]
-            if case.get('lay') and base_bad.get(_sig({k: v for k, v in case.items() if k != 'lay'})) == clauses:
-                continue                   # the base case fails in the same way: the layout is not the cause
+            if _is_variant(case) and base_bad.get(_sig(_base_of(case))) == clauses:
+                continue                   # the base case fails in the same way: the layout / naming / ... is not the cause
             ctx.violation(render_key(case, clauses, obs),
                           'clauses %s of Render.tla are false on the rendering (%s); projection %s'
                           % (clauses, obs.get('why', ''), json.dumps(obs['parts'])[:600]),
@@ -706,12 +834,21 @@ def random_render_cases(rng, n):
             if not any(counts):
                 counts[rng.randrange(n_st)] = 1
             case = dict(kind=kind, shape=[], fail=[counts])
+            if rng.random() < 0.5:         # how the items are named / grouped (any combination), after the plain case
+                out.append(dict(case, verb=verb, rep=rep))
+                case['names'] = rng.choice(NAME_SCHEMES)
+                if kind == 'stats_tests':
+                    case.update({k: v for k, v in (('fp', rng.choice([None, 'differ'])), ('group', rng.choice([None, 'one-task']))) if v})
         else:
             rows = []
-            for _ in range(rng.randint(1, 5)):
+            for _ in range(rng.choice([0, 1, 1, 2, 3, 4, 5])):
                 ok, ko = rng.choice([(1, 0), (3, 0), (2, 1), (0, 1), (0, 3), (1, 2)])
                 rows.append([ok, ko])
             case = dict(kind=kind, shape=[], fail=rows)
+            if rng.random() < 0.5 or not rows:   # selected labels, tests outside every row, naming / grouping (after the plain case)
+                out.append(dict(case, verb=verb, rep=rep))
+                case.update(by=rng.choice([1, 2]), part=[[rng.choice([0, 0, 1, 2]) for _ in range(2)] for _ in range(2)])
+                case.update({k: v for k, v in (('names', rng.choice((None,) + NAME_SCHEMES)), ('group', rng.choice([None, 'one-task']))) if v})
         out.append(dict(case, verb=verb, rep=rep))
     return out
 
@@ -860,7 +997,10 @@ def run_c12(ctx):
              'operation sequences outside those domains validated by RenderTrace.tla / TableOpsTrace.tla; every '
              'TableTemplate a representer produced is validated as a zero-operation trace.  Dataset cases that can '
              'show a table are repeated with the same numbers stored differently (Fortran order, transposed view, '
-             'strided slice, integer dtype; per dataset or all alike), in rotation.  distinct_nontrivial = '
+             'strided slice, integer dtype; per dataset or all alike), in rotation; statistics summaries are repeated '
+             'with the same counts and their items named alike within / across the classes, equally named but different '
+             'tests, all results in one task, two selected labels, tests carrying only part of the selected labels (by '
+             'labels: also no row at all), in rotation.  distinct_nontrivial = '
              'distinct inputs whose rendering carries a mark or a table (or raises) + distinct random operation '
              'sequences (+ 1 in 499 of the enumerated ones).')
     ctx.assume('marks shown for the Student test underlying a Bonferroni / Holm result are attributed to that Student '
@@ -868,7 +1008,8 @@ def run_c12(ctx):
     ctx.assume('valid reStructuredText = docutils 0.18 reports no system message of level ERROR or above; the Sphinx role '
                ':ref: is registered as a plain inline role; the hl role must be declared by the text itself')
     ctx.assume('strings put into tables by the binding (names, labels, metadata values) are plain alphanumerics; '
-               'statistics over zero tasks / tests are not generated; empty tables are not generated')
+               'statistics over zero tasks / tests are not generated (a summary by labels without any row is); names may '
+               'repeat; table operations yielding empty tables are not generated')
     ctx.assume('errors are required in a per-bin row only if the table shows errors at all (the equal / approx-equal '
                'tests ignore them)')
     wd = tlc.workdir('c12')
@@ -934,11 +1075,15 @@ def run_c12(ctx):
     else:
         lays = lays[::2]                   # (rotations of 7 / 3 layouts: a stride of 2 keeps every layout)
     cases += lays
+    # the statistics summaries with their items named / grouped / labelled differently (same counts), in rotation
+    svars = stats_variants(order)
+    cases += svars
     n_enum = len(cases)
     # 3. code -> spec: random results outside the enumerated domain (rendered and judged in the same batches)
     rnd = [c for c in random_render_cases(ctx.rng, ctx.pick(1000, 20000)) if json.dumps(c, sort_keys=True) not in seen]
     rnd_lays = layout_variants(rnd, start=1)
-    cases += rnd + rnd_lays
+    rnd_svars = stats_variants(rnd, start=1)
+    cases += rnd + rnd_lays + rnd_svars
     tables, results = check_renderings(ctx, cases, wd, n_enum)
     dispatch = {}
     for case, (obs, _, _) in zip(cases[:n_enum], results):
@@ -949,6 +1094,9 @@ def run_c12(ctx):
     ctx.cov['dispatch_observed'] = {k: sorted(v) for k, v in sorted(dispatch.items())}
     ctx.cov['inputs'] = dict(enumerated_by_tlc=n_enum, seeded_random=len(cases) - n_enum,
                              of_which_layout_variants=[len(lays), len(rnd_lays)],
+                             of_which_statistics_variants=[len(svars), len(rnd_svars)],
+                             statistics_variants_by_dimension={d: sum(1 for c in cases if c['kind'].startswith('stats') and d in _lay_suffix(c).split('/'))
+                                                               for d in ('repeated-names', 'same-name-other-test', 'one-task', 'zero-rows', 'two-labels', 'partial-labels')},
                              layout_variants_by_layout={l: sum(1 for c in lays + rnd_lays if c['lay'] == l)
                                                         for l in sorted(set(LAYS_0D + LAYS_1D + LAYS_ND))})
     _tick(ctx, 'renderings (enumerated + random)')
